@@ -11,7 +11,16 @@ Definition run_obs := option (list (list N * Z) * list txout * Z * list utxo).
 
 Inductive case :=
 | Case (ps : list prop) (us : list utxo) (listings : list (list nat)) (rate : Z)
-       (bridge_key cid : list N) (upload_ok : bool) (impl : list run_obs).
+       (bridge_key cid : list N) (upload_ok : bool) (impl : list run_obs)
+(* message level: deposit messages with amounts [ms] (18 decimals) and the recipients of [ps] go
+   through the real FungibleMessageHandler; [impl_amts] = amounts of the proposals it produced, which
+   then go through rawTx as in [Case] (the amounts of [ps] are not used) *)
+| MsgCase (ms : list Z) (ps : list prop) (us : list utxo) (listings : list (list nat)) (rate : Z)
+       (bridge_key cid : list N) (upload_ok : bool) (impl_amts : list Z) (impl : list run_obs)
+(* the real Executor.Execute on one delivery over several resources, one entry of [runs] per
+   schedule: per transaction built, the resource it was built for (0 = none of the configured ones)
+   and the deposit nonces of the proposals it pays; canonical order (first member) *)
+| ExecCase (ps : list eprop) (runs : list (list (N * list N))).
 
 Definition dummy := mkUtxo [] 0 0 0.
 Definition permute (us : list utxo) (p : list nat) : list utxo := map (fun i => nth i us dummy) p.
@@ -36,30 +45,53 @@ Definition agree_one (ps : list prop) (listing : list utxo) rate bridge cid up (
   | _, _ => false
   end.
 
+Definition agree_tx ps us (ls : list (list nat)) rate key cid up (impl : list run_obs) : bool :=
+  wf ps us rate
+  && forallb (is_perm (length us)) ls
+  && (length ls =? length impl)%nat
+  && forallb (fun lo => agree_one ps (permute us (fst lo)) rate (bridge_script key) cid up (snd lo))
+             (combine ls impl).
+
+Definition group_eqb (a b : N * list N) : bool :=
+  (fst a =? fst b)%N && list_eqb N.eqb (snd a) (snd b).
+
 Definition agree (c : case) : bool :=
   match c with
-  | Case ps us ls rate key cid up impl =>
-      wf ps us rate
-      && forallb (is_perm (length us)) ls
-      && (length ls =? length impl)%nat
-      && forallb (fun lo => agree_one ps (permute us (fst lo)) rate (bridge_script key) cid up (snd lo))
-                 (combine ls impl)
+  | Case ps us ls rate key cid up impl => agree_tx ps us ls rate key cid up impl
+  | MsgCase ms ps us ls rate key cid up amts impl =>
+      msgs_wf ms && (length ms =? length ps)%nat
+      && list_eqb Z.eqb (map handler_amount ms) amts
+      && agree_tx (with_amounts ps (map handler_amount ms)) us ls rate key cid up impl
+  | ExecCase ps runs =>
+      nonces_distinct ps && forallb (list_eqb group_eqb (groups ps)) runs
   end.
 
 Definition judge (c : case) : bool :=
   match c with
   | Case ps us ls rate key cid up impl => spec_all ps us (bridge_script key) (map drop_used impl)
+  | MsgCase ms ps us ls rate key cid up amts impl =>
+      (length ms =? length ps)%nat && amounts_ok ms amts
+      && spec_all (with_amounts ps amts) us (bridge_script key) (map drop_used impl)
+  | ExecCase ps runs => forallb (exec_ok ps) runs
   end.
 
 (* model branch: 0 error, 1 exact (no change), 2 change; +3 if more than one input *)
+Definition tag_tx ps us rate key cid up : N :=
+  match raw_tx ps us rate (bridge_script key) cid up with
+  | Err => if all_valid ps then (if cannot_cover ps us rate then 1 else 2) else 0
+  | Tx t => ((if (length (t_outs t) =? length ps + 1)%nat then 3 else 4)
+             + (if (1 <? length (t_ins t))%nat then 2 else 0))
+  end%N.
+
+(* +10: message level, all amounts below the limit; +20: some amount beyond it; 30+k: Execute over k
+   resources *)
 Definition tag (c : case) : N :=
   match c with
-  | Case ps us ls rate key cid up _ =>
-      match raw_tx ps us rate (bridge_script key) cid up with
-      | Err => if all_valid ps then (if cannot_cover ps us rate then 1 else 2) else 0
-      | Tx t => ((if (length (t_outs t) =? length ps + 1)%nat then 3 else 4)
-                 + (if (1 <? length (t_ins t))%nat then 2 else 0))
-      end
-  end%N.
+  | Case ps us ls rate key cid up _ => tag_tx ps us rate key cid up
+  | MsgCase ms ps us ls rate key cid up _ _ =>
+      ((if forallb (fun m => (m <? msg_limit)%Z) ms then 10 else 20)
+       + tag_tx (with_amounts ps (map handler_amount ms)) us rate key cid up)%N
+  | ExecCase ps _ => (30 + N.of_nat (length (groups ps)))%N
+  end.
 
 Definition check_all := check_cases agree judge tag.
